@@ -44,15 +44,17 @@ theorem hop_wrap (vf : Err → Str) (id : Ident) (k : WrapKind) (c : Err) (path 
     · simp [encode, decode, hd, typeKey, Full_knows, detOf, buildWrap, decodeHid, layerDetails, extractPrefix_self, text, wrapText]
     · simp [shape, label, storedMark, isSigOf, isMultiNode, stSigOf, annOf, safeOf, layerStackStr, isStackKey, layerHint, layerDetail, layerIssueLink, layerKeys, layerDomain, layerTags, layerHTTP, layerGrpc, isAssertionFailure, isUnimplementedError, isWithIssueLink, timeoutLayer, layerDetails, Err.opaqueDet, detOf, text, wrapText, hs, ht] <;> try rfl
     · simp [stable, wrapStable, hst]
-  | withContext tags red =>
+  | withContext tags kinds red =>
     simp [wrapStable] at h
     obtain ⟨h1, h2⟩ := h
-    refine ⟨.wrap path (.withContext tags (if layerDetails Full vf (.wrap id (.withContext tags red) c) = [] then none
-        else some (layerDetails Full vf (.wrap id (.withContext tags red) c)))) c', ?_, ?_, ?_⟩
+    refine ⟨.wrap path (.withContext tags [] (if layerDetails Full vf (.wrap id (.withContext tags kinds red) c) = [] then none
+        else some (layerDetails Full vf (.wrap id (.withContext tags kinds red) c)))) c', ?_, ?_, ?_⟩
     · simp [encode, decode, hd, typeKey, Full_knows, detOf, buildWrap, decodeHid, h1, h2]
     · simp [shape, label, storedMark, isSigOf, isMultiNode, stSigOf, annOf, safeOf, layerStackStr, isStackKey, layerHint, layerDetail, layerIssueLink, layerKeys, layerDomain, layerTags, layerHTTP, layerGrpc, isAssertionFailure, isUnimplementedError, isWithIssueLink, timeoutLayer, layerDetails, Err.opaqueDet, detOf, text, wrapText, hs, ht]
       cases red with
-      | none => by_cases ht0 : List.map redactTag tags = [] <;> simp [layerDetails, ht0]
+      | none =>
+        have hne : redactTags tags kinds ≠ [] := by rw [Ne, redactTags_eq_nil]; exact h1.1
+        simp [layerDetails, hne]
       | some r => simp at h2; simp [layerDetails, h2]
     · simp [stable, wrapStable, hst, h1, h2]
   | withMark m t =>
